@@ -560,5 +560,9 @@ def run(ctx, ck):
                   'asserts `not segments` before touching the geometry (%d paths)' % npaths if bad is None else bad)
             n += 1
     ck.floor('transformation methods', n, 6)
+    # transformations act in sort-key order (shared with C05)
+    ck.rule('R-ORDER.main', 'all rotations and translations are applied in one sequence sorted by their sort key')
+    from ._mainorder import check_transform_order
+    check_transform_order(ctx, ck, with_phases=False)
     ck.undecided += ['growth ratio <= 2.1 and min/max segment limits of tapers', 'points on the circle / helix',
                      'uniform angular steps, handedness']
